@@ -85,7 +85,7 @@ def schedules(scn, program, rng):
     n = max(2, s.step)
     if n <= (SWEEP_FLAGGED_MAX_STEPS if program.get("sweep") else SWEEP_MAX_STEPS) and (program.get("sweep") or (getattr(scn, "tier", "quick") == "thorough" and rng.random() < 0.08)):
         # thorough tier, short run: *every* single pre-emption point under these priorities, not a sample of them
-        for k in range(1, n):
+        for k in range(1, min(n, stats.get("sweep_until") or n)):
             s, viol, stats = scn.run(program, core.PCT(prio_seed, [k]), chooser())
             yield ["pct-sweep", 1, prio_seed, [k]], s, viol, stats
         return
